@@ -11,4 +11,6 @@ const (
 	zzICLine   = 3
 	zzHoldTok  = 1
 	zzHoldLine = 2
+	zzIdxLit  = 3
+	zzIdxLine = 5
 )
